@@ -205,6 +205,71 @@ Section Conc.
     intros L. unfold instance, arg_schema. cbn [s_n s_body s_constrs fresh_list forM bindM ret].
     rewrite eval_sty_sconc. now apply fix_ty_inj.
   Qed.
+  (* the occurs check of an unresolved, unbounded variable in a concrete type *)
+  Lemma match_OV_unbounded f s o xs v :
+    c_bound (cell_of s v) = None -> c_lower (cell_of s v) = None -> c_upper (cell_of s v) = None ->
+    match_f H (S f) s false false (O o xs) (V v) = Ok None.
+  Proof.
+    intros B Lo Up. cbn [match_f]. rewrite follow_O, (follow_unbound s v B). cbn beta iota zeta.
+    rewrite Lo, Up. reflexivity.
+  Qed.
+
+  Definition occ_args (f : nat) (s : store) (b : tyv) :=
+    fix go (l : list tyv) : res bool :=
+      match l with
+      | [] => Ok false
+      | t :: r => match occurs_f H f s t b with
+                  | Er e => Er e
+                  | Ok true => Ok true
+                  | Ok false => go r
+                  end
+      end.
+
+  Lemma occurs_S f s a0 b0 :
+    occurs_f H (S f) s a0 b0 =
+    match match_f H f s false false (follow s a0) (follow s b0) with
+    | Er e => Er e
+    | Ok (Some true) => Ok true
+    | Ok _ => match follow s a0 with
+              | O _ args => occ_args f s (follow s b0) args
+              | V _ => Ok false
+              end
+    end.
+  Proof. reflexivity. Qed.
+
+  Lemma occurs_inj x : forall fuel s v, ty_depth x + 2 <= fuel ->
+    c_bound (cell_of s v) = None -> c_lower (cell_of s v) = None -> c_upper (cell_of s v) = None ->
+    occurs_f H fuel s (inj x) (V v) = Ok false.
+  Proof.
+    induction x as [o args IH] using ty_ind'. intros fuel s v L B Lo Up.
+    destruct fuel as [|[|f]]; try lia. cbn [inj].
+    assert (LA : Forall (fun a => ty_depth a + 2 <= S f) args).
+    { assert (LD : ty_depth (TOp o args) < S f) by lia.
+      apply depth_args in LD. eapply Forall_impl; [|exact LD]. cbn beta. intros. lia. }
+    rewrite occurs_S, follow_O, (follow_unbound s v B).
+    rewrite match_OV_unbounded by assumption.
+    clear L. induction args as [|a args IHa]; [reflexivity|].
+    inversion IH as [|? ? Ha IH']; subst. inversion LA as [|? ? La LA']; subst.
+    cbn [map occ_args]. rewrite Ha by assumption. apply IHa; assumption.
+  Qed.
+
+  Lemma vars_inj x : forall fuel s acc, ty_depth x < fuel -> vars_f fuel s (inj x) acc = Ok acc.
+  Proof.
+    induction x as [o args IH] using ty_ind'. intros fuel s acc L.
+    destruct fuel as [|f]; [lia|]. apply depth_args in L. cbn [inj vars_f]. rewrite follow_O.
+    revert acc. induction args as [|a args IHa]; intros acc; [reflexivity|].
+    inversion IH as [|? ? Ha IH']; subst. inversion L as [|? ? La L']; subst.
+    cbn [map]. rewrite Ha by assumption. apply IHa; assumption.
+  Qed.
+
+  Lemma occurs_inj' o args fuel s v : ty_depth (TOp o args) + 2 <= fuel ->
+    c_bound (cell_of s v) = None -> c_lower (cell_of s v) = None -> c_upper (cell_of s v) = None ->
+    occurs_f H fuel s (O o (map inj args)) (V v) = Ok false.
+  Proof. exact (occurs_inj (TOp o args) fuel s v). Qed.
+
+  Lemma vars_inj' o args fuel s acc : ty_depth (TOp o args) < fuel ->
+    vars_f fuel s (O o (map inj args)) acc = Ok acc.
+  Proof. exact (vars_inj (TOp o args) fuel s acc). Qed.
 End Conc.
 
 Local Arguments fix_args : simpl never.
@@ -264,6 +329,22 @@ Section Flat.
   Qed.
 End Flat.
 
+(* like c06_bump1, but the occurs check and the variable collection are left
+   alone (they are rewritten with [occurs_inj'] / [vars_inj'] when the argument
+   is an arbitrary concrete type) *)
+Ltac c06p_bump1 n m En :=
+  match goal with
+  | |- context [unify ?H n ?a ?b ?c ?d ?e ?s] => replace (unify H n a b c d e s) with (unify H m a b c d e s) by (rewrite En; reflexivity); rewrite unify_S
+  | |- context [bind ?H n ?a ?b ?s] => replace (bind H n a b s) with (bind H m a b s) by (rewrite En; reflexivity); rewrite bind_S
+  | |- context [above ?H n ?a ?b ?s] => replace (above H n a b s) with (above H m a b s) by (rewrite En; reflexivity); rewrite above_S
+  | |- context [below ?H n ?a ?b ?s] => replace (below H n a b s) with (below H m a b s) by (rewrite En; reflexivity); rewrite below_S
+  | |- context [check_constraints ?H n ?a ?s] => replace (check_constraints H n a s) with (check_constraints H m a s) by (rewrite En; reflexivity); rewrite check_constraints_S
+  | |- context [fulfill ?H n ?a ?s] => replace (fulfill H n a s) with (fulfill H m a s) by (rewrite En; reflexivity); rewrite fulfill_S
+  | |- context [minimize ?H n ?a ?s] => replace (minimize H n a s) with (minimize H m a s) by (rewrite En; reflexivity); rewrite minimize_S
+  | |- context [fix_ty ?H n ?a ?b ?s] => replace (fix_ty H n a b s) with (fix_ty H m a b s) by (rewrite En; reflexivity); rewrite fix_ty_S
+  | |- context [match_f ?H n ?s ?a ?b ?c ?d] => replace (match_f H n s a b c d) with (match_f H m s a b c d) by (rewrite En; reflexivity)
+  end.
+
 (* ---------- symbolic execution ---------- *)
 Section Pat.
 Variable H : hier.
@@ -281,6 +362,8 @@ Ltac facts :=
     end).
 Ltac bump_any := match goal with [E : ?n = S ?m |- _] => is_var n; is_var m; c06_bump1 n (S m) E end.
 Ltac run := cbn; repeat (first [bump_any|facts]; cbn).
+Ltac bump_any' := match goal with [E : ?n = S ?m |- _] => is_var n; is_var m; c06p_bump1 n (S m) E end.
+Ltac run' := cbn; repeat (first [bump_any'|facts]; cbn).
 
 Lemma nonbasic o : variance H o <> [] -> basic H o = false.
 Proof. intros V. unfold basic, arity. destruct (variance H o); [congruence|reflexivity]. Qed.
@@ -425,6 +508,42 @@ Proof.
   destruct t as [|[|t']]; [|now elim NB|]; eexists; unfold st1k; run; reflexivity.
 Qed.
 
+
+(* applied to Bottom: accepted, both alternatives stay, nothing is determined *)
+Lemma stage3k_bottom C R xs n0 n1 n2 n3 n4 n5 n6 n7 n8 sc :
+  variance H (S (S C)) = [true] -> variance H (S (S R)) = [true; true] ->
+  Nat.eqb C R = false -> Nat.eqb R C = false -> Nat.eqb C 1 = false ->
+  n0 = S n1 -> n1 = S n2 -> n2 = S n3 -> n3 = S n4 -> n4 = S n5 -> n5 = S n6 -> n6 = S n7 -> n7 = S n8 ->
+  apply H n0 (O Function [V 0; O (S (S C)) [V 1]]) (O Bottom xs) true (st1k sc (S (S C)) (S (S R))) =
+  MOk (O (S (S C)) [V 1]) (st1k sc (S (S C)) (S (S R))).
+Proof.
+  intros VC VR NCR NRC NCF E0 E1 E2 E3 E4 E5 E6 E7. pose proof (wf_fun H W) as Vf.
+  assert (BC : basic H (S (S C)) = false) by (apply nonbasic; rewrite VC; discriminate).
+  assert (BR : basic H (S (S R)) = false) by (apply nonbasic; rewrite VR; discriminate).
+  unfold st1k. run. reflexivity.
+Qed.
+
+(* applied to a concrete type with another compound head: no alternative survives *)
+Lemma stage3k_comp C R g args n0 n1 n2 n3 n4 n5 n6 n7 n8 n9 sc :
+  variance H (S (S C)) = [true] -> variance H (S (S R)) = [true; true] ->
+  Nat.eqb C R = false -> Nat.eqb R C = false -> Nat.eqb C 1 = false ->
+  variance H g <> [] -> g <> S (S C) -> g <> S (S R) -> ty_depth (TOp g args) + 3 <= n0 ->
+  n0 = S n1 -> n1 = S n2 -> n2 = S n3 -> n3 = S n4 -> n4 = S n5 -> n5 = S n6 -> n6 = S n7 -> n7 = S n8 -> n8 = S n9 ->
+  exists s', apply H n0 (O Function [V 0; O (S (S C)) [V 1]]) (O g (map inj args)) true
+                   (st1k sc (S (S C)) (S (S R))) = MEr EConstraintViolation s'.
+Proof.
+  intros VC VR NCR NRC NCF Vg NgC NgR LD E0 E1 E2 E3 E4 E5 E6 E7 E8. pose proof (wf_fun H W) as Vf.
+  assert (BC : basic H (S (S C)) = false) by (apply nonbasic; rewrite VC; discriminate).
+  assert (BR : basic H (S (S R)) = false) by (apply nonbasic; rewrite VR; discriminate).
+  pose proof (nonbasic _ Vg) as Bg.
+  destruct (comp_SS _ Vg) as (g' & ->).
+  assert (NgC' : Nat.eqb g' C = false) by (apply Nat.eqb_neq; congruence).
+  assert (NgR' : Nat.eqb g' R = false) by (apply Nat.eqb_neq; congruence).
+  eexists. unfold st1k. run'.
+  rewrite occurs_inj' by (try reflexivity; lia). run'.
+  rewrite vars_inj' by lia. run'.
+  reflexivity.
+Qed.
 
 (* applied to Bottom itself: accepted (Bottom is below everything), nothing is determined *)
 Lemma stage3u_bottom F xs n0 n1 n2 n3 n4 n5 n6 n7 n8 sc :
@@ -583,6 +702,44 @@ Proof.
   eexists. rewrite (run3' H fuel _ _ _ _ _ LD
              (stage1k C' R' fuel n1 n2 n3 n4 n5 n6 n7 n8 sc VC VR NCR NRC E0 E1 E2 E3 E4 E5 E6 E7)).
   cbn [inj map]. rewrite E3k. reflexivity.
+Qed.
+
+Theorem engine_keys_bottom C R fuel sc :
+  variance H C = [true] -> variance H R = [true; true] -> 9 <= fuel ->
+  run_cmds H fuel (app_prog (keys_schema C R) (TOp Bottom [])) 0 [] (empty_store sc) =
+  (None, [O Function [V 0; O C [V 1]]; O Bottom []; O C [V 1]], st1k sc C R).
+Proof.
+  intros VC VR L.
+  destruct (keys_ops C R VC VR) as (C' & R' & -> & -> & NCR & NRC & NCF).
+  destruct (chain9 fuel L) as (n1 & n2 & n3 & n4 & n5 & n6 & n7 & n8 & n9 & E0 & E1 & E2 & E3 & E4 & E5 & E6 & E7 & E8).
+  assert (LD : ty_depth (TOp Bottom []) < fuel) by (cbn; lia).
+  rewrite (run3' H fuel _ _ _ _ _ LD
+             (stage1k C' R' fuel n1 n2 n3 n4 n5 n6 n7 n8 sc VC VR NCR NRC E0 E1 E2 E3 E4 E5 E6 E7)).
+  cbn [inj map].
+  now rewrite (stage3k_bottom C' R' [] fuel n1 n2 n3 n4 n5 n6 n7 n8 sc VC VR NCR NRC NCF
+                 E0 E1 E2 E3 E4 E5 E6 E7).
+Qed.
+
+(* keys applied to any well-formed concrete type whose head is none of Bottom, C, R *)
+Theorem engine_keys_reject C R x fuel sc :
+  variance H C = [true] -> variance H R = [true; true] -> wf_ty H x ->
+  ty_op x <> Bottom -> ty_op x <> C -> ty_op x <> R -> 9 <= fuel -> ty_depth x + 3 <= fuel ->
+  exists s', run_cmds H fuel (app_prog (keys_schema C R) x) 0 [] (empty_store sc) =
+  (Some (EConstraintViolation, 2), [O Function [V 0; O C [V 1]]; inj x], s').
+Proof.
+  intros VC VR Wx NB NC NR L LD3. destruct x as [g args]. cbn [ty_op] in *.
+  destruct (variance H g) as [|v vs] eqn:Vg.
+  - apply wf_ty_unfold in Wx. destruct Wx as (La & _). rewrite Vg in La.
+    destruct args; [|discriminate]. now apply engine_keys_base.
+  - assert (Vg' : variance H g <> []) by (rewrite Vg; discriminate).
+    destruct (keys_ops C R VC VR) as (C' & R' & -> & -> & NCR & NRC & NCF).
+    destruct (chain9 fuel L) as (n1 & n2 & n3 & n4 & n5 & n6 & n7 & n8 & n9 & E0 & E1 & E2 & E3 & E4 & E5 & E6 & E7 & E8).
+    assert (LD : ty_depth (TOp g args) < fuel) by lia.
+    destruct (stage3k_comp C' R' g args fuel n1 n2 n3 n4 n5 n6 n7 n8 n9 sc VC VR NCR NRC NCF
+                 Vg' NC NR LD3 E0 E1 E2 E3 E4 E5 E6 E7 E8) as (s' & E3k).
+    eexists. rewrite (run3' H fuel _ _ _ _ _ LD
+               (stage1k C' R' fuel n1 n2 n3 n4 n5 n6 n7 n8 sc VC VR NCR NRC E0 E1 E2 E3 E4 E5 E6 E7)).
+    cbn [inj]. rewrite E3k. reflexivity.
 Qed.
 
 (* ---------- the specification side ---------- *)
@@ -876,4 +1033,57 @@ Proof.
   intros alt [<-|[<-|[]]] Ft.
   - apply FC in Ft. discriminate.
   - apply FR in Ft. discriminate.
+Qed.
+
+(* keys applied to any other well-formed concrete type (base types other than
+   Bottom, compound types with a head other than C and R) *)
+Theorem keys_reject_stmt : forall H, wf_hier H -> forall C R x fuel sc,
+  variance H C = [true] -> variance H R = [true; true] -> wf_ty H x ->
+  ty_op x <> Bottom -> ty_op x <> C -> ty_op x <> R -> 9 <= fuel -> ty_depth x + 3 <= fuel ->
+  let alts := [SOp C [SVar 1]; SOp R [SVar 1; SWild]] in
+  let r := run_cmds H fuel
+             [CInst (mkSchema 2 (SOp Function [SVar 0; SOp C [SVar 1]]) [SCElim (SVar 0) alts]);
+              CInst (mkSchema 0 (sconc x) []);
+              CApply 0 1 true] 0 [] (empty_store sc) in
+  fst r = (Some (EConstraintViolation, 2), [O Function [V 0; O C [V 1]]; inj x]) /\
+  accept_spec H x alts = false /\
+  filter (fitsb H x) alts = [] /\
+  (forall alt, In alt alts -> ~ Fits H x alt).
+Proof.
+  intros H W C R x fuel sc VC VR Wx NB NC NR L LD. cbv zeta.
+  change (run_cmds H fuel _ 0 [] (empty_store sc))
+    with (run_cmds H fuel (app_prog (keys_schema C R) x) 0 [] (empty_store sc)).
+  destruct (engine_keys_reject H W C R x fuel sc VC VR Wx NB NC NR L LD) as (s' & ->). cbn [fst snd].
+  apply Nat.eqb_neq in NB, NC, NR.
+  destruct (keys_uniq H W C R VC VR _ false false Wx) as (A & Fl & FC & FR).
+  { now rewrite NB, NC. }
+  { now rewrite NB, NR. }
+  split; [reflexivity|]. split; [exact A|]. split; [exact Fl|].
+  intros alt [<-|[<-|[]]] Ft.
+  - apply FC in Ft. discriminate.
+  - apply FR in Ft. discriminate.
+Qed.
+
+(* keys applied to Bottom: accepted, BOTH alternatives fit, nothing is determined *)
+Theorem keys_bottom_stmt : forall H, wf_hier H -> forall C R fuel sc,
+  variance H C = [true] -> variance H R = [true; true] -> 9 <= fuel ->
+  let alts := [SOp C [SVar 1]; SOp R [SVar 1; SWild]] in
+  let x := TOp Bottom [] in
+  let r := run_cmds H fuel
+             [CInst (mkSchema 2 (SOp Function [SVar 0; SOp C [SVar 1]]) [SCElim (SVar 0) alts]);
+              CInst (mkSchema 0 (SOp Bottom []) []);
+              CApply 0 1 true] 0 [] (empty_store sc) in
+  fst r = (None, [O Function [V 0; O C [V 1]]; O Bottom []; O C [V 1]]) /\
+  cell_of (snd r) 1 = mkCell false None None None 1 /\
+  accept_spec H x alts = true /\ filter (fitsb H x) alts = alts.
+Proof.
+  intros H W C R fuel sc VC VR L. cbv zeta.
+  change (run_cmds H fuel _ 0 [] (empty_store sc))
+    with (run_cmds H fuel (app_prog (keys_schema C R) (TOp Bottom [])) 0 [] (empty_store sc)).
+  rewrite (engine_keys_bottom H W C R fuel sc VC VR L). cbn [fst snd].
+  destruct (keys_uniq H W C R VC VR (TOp Bottom []) true true) as (A & Fl & _).
+  { apply wf_base. apply (var_bot H W). }
+  { reflexivity. }
+  { reflexivity. }
+  repeat split; try reflexivity; assumption.
 Qed.
